@@ -559,8 +559,8 @@ def buildIn (id : Nat) (orc : Oracle) : M Unit := do
   | 27 => do let _ ← getInt top; finish (← alloc (.cptr 1))
   | 28 => do let _ ← getChar top; finish (← alloc (.cptr 1))
   | 29 => do
+    -- (until the `fix:` commit d4916ed this handler read `stack[sp--]`: it popped its operand and stored the result one slot lower)
     let s ← getStrRef top
-    setSp (sp - 1)
     if s != 0 then let _ ← getStr s
     finish (← alloc (.cptr (if s == 0 then 0 else 1)))
   | 30 => do let _ ← getCPtr top; finish (← alloc (.cptr 1))
